@@ -159,13 +159,30 @@ def tabulate_physical(el, cell, X, nder):
     if cls == "_BasixElement":
         return _leaf_tab(el, cell, X, nder)
     if cls == "_BlockedElement":
-        if getattr(el, "_has_symmetry", False) or getattr(el, "symmetry", lambda: False)():
-            raise Unsupported("symmetric blocked element")
         sv, s1, s2 = tabulate_physical(el._sub_element, cell, X, nder)
         if sv.shape[1] != 1:
             raise Unsupported("blocked non-scalar sub-element")
         bs = el.block_size
         n = sv.shape[0]
+        if getattr(el, "_has_symmetry", False):
+            # symmetric rank-2 tensor: one block component per unordered index pair, numbered along the rows of the
+            # lower triangle ((0,0) (1,0) (1,1) (2,0) ...); the physical value has both (i,j) and (j,i) equal to it
+            r = int(el._block_shape[0])
+            if bs != r * (r + 1) // 2 or tuple(el._block_shape) != (r, r):
+                raise Unsupported("symmetric element of unexpected shape")
+            pairs = [(i, j) for i in range(r) for j in range(i + 1)]
+            vals = np.zeros((n * bs, r * r))
+            d1 = np.zeros((n * bs, r * r, cell.gdim)) if s1 is not None else None
+            d2 = np.zeros((n * bs, r * r, cell.gdim, cell.gdim)) if s2 is not None else None
+            for k in range(n):
+                for c, (i, j) in enumerate(pairs):
+                    for flat in {i * r + j, j * r + i}:
+                        vals[bs * k + c, flat] = sv[k, 0]
+                        if d1 is not None:
+                            d1[bs * k + c, flat] = s1[k, 0]
+                        if d2 is not None:
+                            d2[bs * k + c, flat] = s2[k, 0]
+            return vals, d1, d2
         vals = np.zeros((n * bs, bs))
         d1 = np.zeros((n * bs, bs, cell.gdim)) if s1 is not None else None
         d2 = np.zeros((n * bs, bs, cell.gdim, cell.gdim)) if s2 is not None else None
@@ -326,8 +343,14 @@ def integrals_for(form, itype, sid):
     return out
 
 
-def rule_for(integral, cellname, itype, facet=None, polyset=basix.PolysetType.standard):
+def rule_for(integral, cellname, itype, facet=None, polyset=None):
     md = integral.metadata() or {}
+    if polyset is None:
+        # macro (piecewise polynomial) argument spaces are integrated with a composite rule on their sub-cells
+        polyset = basix.PolysetType.standard
+        for a in ufl.algorithms.extract_arguments(integral.integrand()):
+            pt = getattr(a.ufl_function_space().ufl_element(), "polyset_type", basix.PolysetType.standard)
+            polyset = basix.polyset_superset(getattr(basix.CellType, cellname), polyset, pt)
     scheme = md.get("quadrature_rule", md.get("quadrature_scheme", "default"))
     # a quadrature element is defined at its own points only: they are the rule
     qes = [e for e in ufl.algorithms.extract_elements(integral) if type(e).__name__ == "_QuadratureElement"]
@@ -689,7 +712,23 @@ def _bessel_evaluate(self, x, mapping, component, index_values):
         return float(np.sum(np.cos(n * t - a * np.sin(t))) / N)
     if kind == "i":
         return float(np.sum(np.exp(a * np.cos(t)) * np.cos(n * t)) / N)
-    raise ValueError("oracle: Bessel function of the second kind not supported")
+    if kind == "y":
+        # Y_n(a) = 1/pi int_0^pi sin(a sin t - n t) dt - 1/pi int_0^oo (e^{n s} + (-1)^n e^{-n s}) e^{-a sinh s} ds,  a > 0
+        if a <= 0.0:
+            raise ValueError("oracle: Bessel function of the second kind at a non-positive argument")
+        gx, gw = np.polynomial.legendre.leggauss(64)
+
+        def panels(f, lo, hi, m):
+            tot = 0.0
+            for k in range(m):
+                u, w = lo + (hi - lo) * k / m, (hi - lo) / m
+                tot += float(np.sum(gw * f(u + (gx + 1.0) * w / 2.0)) * w / 2.0)
+            return tot
+        first = panels(lambda th: np.sin(a * np.sin(th) - n * th), 0.0, math.pi, 8)
+        T = math.asinh((60.0 + 2.0 * n * 8.0) / a) + 1.0
+        second = panels(lambda u: (np.exp(n * u) + (-1) ** n * np.exp(-n * u)) * np.exp(-a * np.sinh(u)), 0.0, T, 24)
+        return (first - second) / math.pi
+    raise ValueError("oracle: modified Bessel function of the second kind not supported")
 
 
 ufl.mathfunctions.BesselFunction.evaluate = _bessel_evaluate
